@@ -104,13 +104,23 @@ fn check_word(ctx: &mut Ctx, idx: u64, id: u16, w: u16) {
         let add = FLAG_MASK & (w.rotate_left(5) ^ 0x5A5A);
         let del = FLAG_MASK & (w.rotate_left(9) ^ 0x3C3C);
         let new_id = id ^ w.rotate_left(3) ^ 0x0F0F;
+        // which of the five edits are made: all of them when the parsed opcode or response code has no name (what such a field
+        // is written back as is then not pinned down), any subset otherwise -- an edit must take effect on its own as well
+        let (old_op, old_rc) = ((w >> 11) & 0xF, w & 0xF);
+        let named = NAMED_OPCODES.contains(&old_op) && NAMED_RCODES_LOW.contains(&old_rc);
+        let em: u32 = if named { ((w as u32 ^ ((id as u32) << 3)).wrapping_mul(2_654_435_761) >> 27) & 31 } else { 31 };
+        let (new_op, new_rc) = (if em & 1 != 0 { new_op } else { old_op }, if em & 2 != 0 { new_rc } else { old_rc });
+        let (add, del) = (if em & 4 != 0 { add } else { 0 }, if em & 8 != 0 { del } else { 0 });
+        let new_id = if em & 16 != 0 { new_id } else { id };
+        ctx.add(&format!("header_edits_applied_{}", em.count_ones()), 1);
         let r = monitor::guard(|| {
             Packet::parse(&b).ok().and_then(|mut p| {
-                *p.opcode_mut() = bridge::lib_opcode(new_op).unwrap();
-                *p.rcode_mut() = bridge::lib_rcode(new_rc).unwrap();
-                p.set_flags(bridge::lib_flags(add));
-                p.remove_flags(bridge::lib_flags(del));
-                p.set_id(new_id);
+                if em & 4 != 0 && w & 0x0100 != 0 { p.set_flags(bridge::lib_flags(add)); }
+                if em & 1 != 0 { *p.opcode_mut() = bridge::lib_opcode(new_op).unwrap(); }
+                if em & 2 != 0 { *p.rcode_mut() = bridge::lib_rcode(new_rc).unwrap(); }
+                if em & 4 != 0 && w & 0x0100 == 0 { p.set_flags(bridge::lib_flags(add)); }
+                if em & 8 != 0 { p.remove_flags(bridge::lib_flags(del)); }
+                if em & 16 != 0 { p.set_id(new_id); }
                 p.build_bytes_vec().ok().filter(|o| o.len() == 12 && o[0..2] == new_id.to_be_bytes() && p.id() == new_id && o[4..12] == [0u8; 8])
                     .map(|o| (u16::from_be_bytes([o[2], o[3]]), bridge::obs_flags(&p), bridge::obs_opcode(p.opcode()), bridge::obs_rcode(p.rcode())))
             })
